@@ -1511,6 +1511,9 @@ def replay_e2e(ctx, rep):
 # run
 # =====================================================================================
 def run_inproc(ctx):
+    # the harness makes its document/cache directories under $TMPDIR; a killed or aborted harness
+    # skips its atexit cleanup, so point it at a scratch directory this run removes at exit
+    os.environ["TMPDIR"] = C.scratch_dir("c19tmp")
     exe, err = C.build_harness("h_deflate")
     if exe is None:
         ctx.broken.append({"kind": "harness-build", "names": ["h_deflate"], "log": err[-3000:]})
